@@ -33,7 +33,8 @@ pub enum C18Case {
         /// lines end in CR LF
         #[serde(default)]
         crlf: bool,
-        /// three-column BED (1), also with a trailing blank (2) or a trailing tab (3) on every line
+        /// three-column BED (1), also with a trailing blank (2) or a trailing tab (3) on every line;
+    /// 4: all columns, start and end written with a leading plus sign
         #[serde(default)]
         tail: u8,
         /// extra bytes on the long line (byte granularity; `long_line` pads in steps of 12)
@@ -143,7 +144,14 @@ fn records_view(path: &std::path::Path, start: u64, end: u64, bed: bool) -> Vec<
 
 fn c18_text(runs: &[(usize, usize)], long_line: Option<(usize, usize)>, final_newline: bool, bed: bool, utf8: bool, crlf: bool, tail: u8, extra_pad: usize, out: &mut Outcome) {
     let mut lines = text_lines(runs, long_line, bed, utf8, extra_pad);
-    if tail > 0 {
+    if tail == 4 {
+        // coordinates written with a sign (`+12`): the integer parser of the rows takes them, so
+        // whatever else looks at the rows has to take them as well
+        for l in lines.iter_mut() {
+            let f: Vec<&str> = l.splitn(4, '\t').collect();
+            *l = format!("{}\t+{}\t+{}\t{}", f[0], f[1], f[2], f.get(3).unwrap_or(&""));
+        }
+    } else if tail > 0 {
         // the minimal BED: chromosome, start, end and nothing else
         for l in lines.iter_mut() {
             let three: Vec<&str> = l.split('\t').take(3).collect();
@@ -690,6 +698,9 @@ impl Check for C18 {
                         v.push(C18Case::Text { runs: runs.clone(), long_line: ll, final_newline, bed, utf8: false, crlf: false, tail: 0, extra_pad: 0 });
                         if ll.is_none() || ll.map(|x| x.1) == Some(3) {
                             v.push(C18Case::Text { runs: runs.clone(), long_line: ll, final_newline, bed, utf8: false, crlf: true, tail: 0, extra_pad: 0 });
+                        }
+                        if ll.is_none() {
+                            v.push(C18Case::Text { runs: runs.clone(), long_line: ll, final_newline, bed, utf8: false, crlf: false, tail: 4, extra_pad: 0 });
                         }
                         if bed && ll.is_none() {
                             for (tail, crlf) in [(1u8, false), (1, true), (2, false), (3, false), (2, true)] {
